@@ -74,6 +74,11 @@
         return result; \
     } \
 \
+    if (bre + 1 != end) { /* something follows the closing bracket */ \
+        result->rc = inverse(EEAV_IPADDR_INVALID); \
+        return result; \
+    } \
+\
     if (ISDIGIT(brs[1])) { /* ip address, possibly ipv4 */ \
         if (is_ipaddr (brs + 1, bre) == 0) { \
             result->rc = inverse(EEAV_IPADDR_INVALID); \
